@@ -61,6 +61,12 @@ META = {
         "numpy on the dense array is the oracle; documented 1e-8 identity shortcut of transforms allowed for; zero-length runs emitted by the encoders are lossless and only counted.",
         "DESIGN.md section 4 C13",
     ),
+    "C16": (
+        "hypothesis point sets and meshes aimed at ties (lattice subsets, coplanar / cocircular, flat-ish, far offsets) + exhaustive enumeration of all subsets of small lattices; containment / rigidity / tightness predicates and an own Welzl minimal-ball oracle",
+        "Generated search: Gaussian / uniform / lattice / clustered / flattened point sets and pool meshes at scales 1e-3..1e6 and offsets to 1e6, 2-D and 3-D, plus every subset of the cube corners and of a 3x3 planar grid (also embedded in 3-D); convex_hull must be watertight, consistently wound, positive, convex, made of input points and contain every input point; bounds exact; oriented boxes rigid (det +1), tight and centred; bounding sphere / cylinder / primitive contain all points, and the sphere equals the Welzl minimum for general-position clouds. Exploration; the enumerated tie families are complete.",
+        "qhull is trusted only through the checked predicates; tolerances 64 eps M + 1e-12 diam scaled by face conditioning; sets with a closest pair under 2e-8 (tol.merge) skipped; Welzl oracle validated against brute force.",
+        "DESIGN.md section 4 C16",
+    ),
     "C17": (
         "enumerated grid (geometry kind x copy method x edited side x every single edit) + hypothesis edit histories; behavioural snapshot oracle",
         "Generated search: every geometry kind in a drawn state (Trimesh cold/warm with colour/texture/PBR visuals, attributes, nested metadata; Box/Sphere/Cylinder/Capsule/Extrusion with non-default parameters; Path2D/3D; PointCloud; nested instanced Scene; VoxelGrid of each encoding) is copied by .copy() (each keyword form), copy.copy and copy.deepcopy; the copy's snapshot (geometry, parameters, visuals, metadata, attributes, derived values) must equal the original's, copying must not change the original, and after each of a drawn sequence of in-place / API edits of one side the other side's snapshot must be unchanged. A complete grid covers kind x copy method x side x each single edit. Exploration only.",
